@@ -259,3 +259,42 @@ func VP_C06_Delete() {
 	zzvp.Done()
 }
 
+
+func vpBigEntry(i int) ([]byte, []byte) {
+	name := []byte{'f', byte('0' + i/100), byte('0' + i/10%10), byte('0' + i%10), '.', 't', 'x', 't'}
+	id := make([]byte, 20)
+	for k := range id {
+		id[k] = byte(i + k)
+	}
+	return name, id
+}
+
+// VP_C06_Big: a staging area larger than the I/O buffer sizes of the standard library (4 KiB, 32 KiB, 64 KiB): many
+// entries with fixed names around one entry with a free name and id; written, read back, compared entry by entry.
+func VP_C06_Big() {
+	n := zzvp.Param("bigentries", 170)
+	idx := newIndex()
+	free := zzvp.Choose(3) // position class of the free entry: first, middle, last
+	for i := 0; i < n; i++ {
+		name, id := vpBigEntry(i)
+		if (free == 0 && i == 0) || (free == 1 && i == n/2) || (free == 2 && i == n-1) {
+			// same sort position, free last byte of the name and free id
+			name[len(name)-1] = zzvp.Bytes("nb", 1, "a-z")[0]
+			id = zzvp.Bytes("bid", 20, "")
+		}
+		idx.Entries = append(idx.Entries, NewEntry(sha.SHA1(id), name))
+	}
+	idx.EntryNum = uint32(n)
+	g := vpGoitDir()
+	zzvp.Assert(idx.write(g) == nil, "writing a large staging area succeeds")
+	b, ok := zzvp.ReadFile(g + "/index")
+	zzvp.Assert(ok && len(b) > 4096 && string(b) == string(vpEncode(idx.Entries)), "the large staging area has exactly the specified bytes")
+	back, err := NewIndex(g)
+	zzvp.Assert(err == nil, "a large staging area written by Goit loads")
+	if err == nil {
+		zzvp.Assert(int(back.EntryNum) == n && vpSameEntries(back.Entries, idx.Entries), "the large staging area decodes to exactly the entries last written")
+		_, e, found := back.GetEntry(idx.Entries[n-1].Path)
+		zzvp.Assert(found && string(e.Hash) == string(idx.Entries[n-1].Hash), "the last tracked path of a large staging area is addressable")
+	}
+	zzvp.Done()
+}
